@@ -13,7 +13,7 @@ EXTRA = {
     'C02': 'accuracy certificate of the accepting test (C02.f)',
     'C18': 'the engine is never copied on its way to a draw (std::bind without std::ref, by-value lambda captures); rejection outside the domain and the number of recorded points as boolean functions of the loop\'s tests; Inverse_Transform_Sampling / Sample_Gauss inherit C02 / C07.d',
     'C17': 'the executed set of (component, l_hat, m_hat) terms of the vector spherical harmonics; Inv_Erf inherits C02\'s obligations about Find_Root',
-    'C16': 'special axes tested in front of Rodrigues\' formula return the same rotation (sample axes with components 0, 2, -3); rotations about a general axis inherit C04\'s obligations about Vector::Norm/Normalize/Normalized',
+    'C16': 'C16.h no quantity of the general spherical branch is formed as sqrt(1-u^2) with u reaching +-1 (conditioning); special axes tested in front of Rodrigues\' formula return the same rotation (sample axes with components 0, 2, -3); rotations about a general axis inherit C04\'s obligations about Vector::Norm/Normalize/Normalized',
     'C13': 'the spherical overload inherits C16\'s obligations about Spherical_Coordinates(r,theta,phi)',
     'C11': 'the value stored for a moved simplex vertex is the objective at that row (the argument array equals the row element by element, from the loop summary); the bracketing triple stays ordered (middle point strictly between the outer ones) on every path, decided on a finite set of placements of the points',
     'C09': 'C09.f the cached search reads the table next to the cached index only for arguments Locate keeps inside the domain (concrete table, call-site path conditions); search phases written with std::lower_bound/upper_bound are classified by the segment convention they implement',
@@ -23,11 +23,11 @@ EXTRA = {
     'C06': 'C06.l a probability computed from the a>100 quadrature is clamped to [0,1]; C06.k the starting value of the Inv_GammaP iteration is non-decreasing in p on a (p,a) grid; GammaP+GammaQ=1 as an identity of terms on every pair of branches; no history-carrying function-local state in the gamma family (exact caches exempt)',
     'C07': 'the tabulated KDE value is the kernel sum divided by bandwidth times the total weight',
     'C08': 'cached state of the integral/extremum queries: every writer of an input of the cached value (transitively through in-class helpers) touches the cache',
-    'C10': 'every field the domain guard of Locate reads is computed after the abscissae received their unit factor; Export_Table checks the length of every row; an order guard written with std::adjacent_find',
+    'C10': 'C10.f tables of length 0 and ragged tables: a literal-position read of a caller-supplied vector happens only for longer containers (reach condition evaluated for every shorter length), and p[r\'][c] with c bounded by another row needs a test of its own row; every field the domain guard of Locate reads is computed after the abscissae received their unit factor; Export_Table checks the length of every row; an order guard written with std::adjacent_find',
     'C12': 'every returning path of Integrate_Gauss_Legendre(func,a,b,n) builds the rule for (n,a,b) and delegates (only a==b may return 0); the rule builder and the three integrators keep no history-carrying local state (exact caches exempt)',
     'C14': 'C14.a per call site of Vegas in Integrate_MC (a continuation run with init>0 is undecided); the bin of a Vegas sample point is the integer part of its own stratified coordinate; every value Miser writes into its mean is the mean of the box\'s own samples or the fraction-weighted mean of its two halves',
     'C15': 'QR and the eigen routines inherit the obligations of C04 about Norm/Normalize/products/block constructor; C15.a/b/c are decided on normal forms of object-valued terms (reflector I-2uu^T, one QR sweep incl. early-continue paths, one QR iteration and its convergence measure)',
-    'C19': 'Range (strided loops summarised, a branch through the function itself unfolded once, std::reverse) is evaluated as a closed form on the complete domain min,max in [-40,40], stepsize 1..40',
+    'C19': 'for constant data every accumulated sum of the weighted standard error vanishes identically (no cancellation between sums); Range (strided loops summarised, a branch through the function itself unfolded once, std::reverse) is evaluated as a closed form on the complete domain min,max in [-40,40], stepsize 1..40',
     'C20': 'header lines are skipped as whole lines (unbounded ignore count or getline); a container overload of In_Units may hand the input back only where the unit factor is 1 and no rounding is requested; Count_Lines counts every line unconditionally; Export/Import element and unit terms are evaluated in the loop state',
 }
 
